@@ -24,13 +24,13 @@ fn wf_indices(t: &TzifOwned) -> bool {
 //@harness c17_tzif_parse_v1_1x1
 //@target shared::TzifOwned::parse (src/shared/tzif.rs): V1 file with 1 transition, 1 local time type, 4 designation bytes
 //@prop C17 C03 C05
-//@tier quick
+//@tier thorough
 //@features alloc
-//@timeout 900
+//@timeout 2400
 //@bounded header counts fixed to timecnt=1,typecnt=1,charcnt=4 (59-byte V1 file); all 15 data bytes symbolic
 //@doc parse returns Ok or Err without panicking; an Ok table has >= 1 transition (the dummy), equal-length columns and every transition type index < number of types
 #[kani::proof]
-#[kani::unwind(8)]
+#[kani::unwind(64)]
 fn c17_tzif_parse_v1_1x1() {
     let mut bytes = [0u8; 59];
     bytes[0] = b'T'; bytes[1] = b'Z'; bytes[2] = b'i'; bytes[3] = b'f';
@@ -54,26 +54,35 @@ fn mk(types: Vec<TzifLocalTimeType>, designations: &str) -> TzifOwned {
     }
 }
 
+// cheap stand-ins for the two string helpers: designation ranges (0,2)->"AB", (3,5)->"CD", (6,8)->"EF"
+fn stub_designation<'a>(_t: &'a TzifOwned, typ: &TzifLocalTimeType) -> &'a str {
+    if typ.designation.0 == 0 { "AB" } else if typ.designation.0 == 3 { "CD" } else { "EF" }
+}
+fn stub_find_or_create_designation(_t: &mut TzifOwned, needle: &str) -> Option<(u8, u8)> {
+    if needle == "AB" { Some((0, 2)) } else if needle == "CD" { Some((3, 5)) } else { Some((6, 8)) }
+}
+
 //@harness c03_find_or_create_local_time_type
 //@target shared::TzifOwned::find_or_create_local_time_type (src/shared/tzif.rs)
 //@prop C03 C18 C17
 //@tier quick
 //@features alloc
-//@timeout 900
-//@bounded two existing local time types with symbolic offset/DST flag over the designation table "AB\0CD\0"; query abbreviation one of "AB","CD","EF"
+//@timeout 600
+//@bounded two existing local time types with symbolic offset/DST flag/abbreviation in {AB,CD}; query abbreviation in {AB,CD,EF}; the two string helpers (designation, find_or_create_designation) are replaced by table stubs
 //@doc Some(i) => types[i] has exactly the requested offset, DST flag and abbreviation, and the previously existing types are unchanged (fattening never re-uses a type that differs in any of the three)
 #[kani::proof]
-#[kani::unwind(10)]
+#[kani::stub(crate::shared::Tzif::designation, stub_designation)]
+#[kani::stub(crate::shared::Tzif::find_or_create_designation, stub_find_or_create_designation)]
+#[kani::unwind(4)]
 fn c03_find_or_create_local_time_type() {
     let o0: i32 = kani::any(); let o1: i32 = kani::any(); let q: i32 = kani::any();
-    kani::assume(-93599 <= o0 && o0 <= 93599 && -93599 <= o1 && o1 <= 93599 && -93599 <= q && q <= 93599);
     let d0: bool = kani::any(); let d1: bool = kani::any(); let qd: bool = kani::any();
     let a0: bool = kani::any(); let a1: bool = kani::any();
     let des = |first: bool| if first { (0u8, 2u8) } else { (3u8, 5u8) };
     let t0 = TzifLocalTimeType { offset: o0, is_dst: d0, designation: des(a0), indicator: TzifIndicator::LocalWall };
     let t1 = TzifLocalTimeType { offset: o1, is_dst: d1, designation: des(a1), indicator: TzifIndicator::LocalWall };
-    let mut types = Vec::new(); types.push(t0); types.push(t1);
-    let mut tz = mk(types, "AB\0CD\0");
+    let mut types = Vec::with_capacity(3); types.push(t0); types.push(t1);
+    let mut tz = mk(types, "");
     let which: u8 = kani::any(); kani::assume(which < 3);
     let abbrev = if which == 0 { "AB" } else if which == 1 { "CD" } else { "EF" };
     let r = tz.find_or_create_local_time_type(IOffset { second: q }, abbrev, qd);
@@ -82,8 +91,38 @@ fn c03_find_or_create_local_time_type() {
         assert!(i < tz.types.len());
         let t = tz.types[i];
         assert!(t.offset == q && t.is_dst == qd);
-        let (a, b) = (usize::from(t.designation.0), usize::from(t.designation.1));
-        assert!(&tz.fixed.designations[a..b] == abbrev);
+        assert!(stub_designation(&tz, &t) == abbrev);
+        // an existing matching type is re-used, otherwise a new one is appended
+        assert!(i <= 2);
+    } else {
+        assert!(false, "with fewer than 256 types the lookup/creation never fails");
     }
     assert!(tz.types[0].offset == o0 && tz.types[0].is_dst == d0 && tz.types[1].offset == o1 && tz.types[1].is_dst == d1);
+}
+
+//@harness c18_find_or_create_designation
+//@target shared::TzifOwned::find_or_create_designation (src/shared/tzif.rs)
+//@prop C18 C03 C17
+//@tier thorough
+//@features alloc
+//@timeout 1500
+//@bounded designation table "AB\0CD\0" (concrete), needle in {AB,CD,EF}
+//@doc Some((a,b)) => designations[a..b] == needle (no trailing NUL), existing entries are re-used, a new entry is appended NUL-terminated
+#[kani::proof]
+#[kani::unwind(12)]
+fn c18_find_or_create_designation() {
+    let mut tz = mk(Vec::new(), "AB\0CD\0");
+    let which: u8 = kani::any(); kani::assume(which < 3);
+    let needle = if which == 0 { "AB" } else if which == 1 { "CD" } else { "EF" };
+    let r = tz.find_or_create_designation(needle);
+    match r {
+        Some((a, b)) => {
+            let (a, b) = (usize::from(a), usize::from(b));
+            assert!(&tz.fixed.designations[a..b] == needle);
+            if which == 0 { assert!(a == 0 && b == 2); }
+            if which == 1 { assert!(a == 3 && b == 5); }
+            if which == 2 { assert!(a == 6 && b == 8 && tz.fixed.designations.len() == 9); }
+        }
+        None => assert!(false),
+    }
 }
